@@ -301,6 +301,10 @@ def _build_iso(desc):
     """Build the isotherms and the per-isotherm native data. Returns (isotherms, info)."""
     model, prm = desc["model"], desc["prm"]
     isos, info = [], []
+    # how the parameter mappings of the models of the different temperatures come about: a fresh dictionary each time,
+    # ONE dictionary updated and passed again, or a copy made from the first model's own description
+    route = ["fresh", "one_dict_reused", "from_template"][int(desc["n_m"] * 1e6 + len(desc["T"])) % 3]
+    shared, template = {}, None
     for j, T in enumerate(desc["T"]):
         pfac, cfac = factors(desc, T)
         Kp = k_pa(desc, T)
@@ -310,9 +314,21 @@ def _build_iso(desc):
         K_nat = Kp * pfac
         rec = {"pfac": pfac, "cfac": cfac, "K_nat": K_nat, "nm_nat": nm_nat}
         if desc["kind"] == "model":
-            m = get_isotherm_model(model, parameters=lib_params(model, prm, K_nat, nm_nat),
-                                   pressure_range=(x_lo / K_nat, x_hi / K_nat),
-                                   loading_range=(th_lo * nm_nat, th_hi * nm_nat))
+            lp = lib_params(model, prm, K_nat, nm_nat)
+            if route == "one_dict_reused":
+                shared.update(lp)
+                lp = shared
+            if route == "from_template" and template is not None:
+                from pygaps.modelling import model_from_dict
+                m = model_from_dict(template.to_dict())
+                for key, val in lp.items():
+                    m.params[key] = val
+                m.pressure_range = (x_lo / K_nat, x_hi / K_nat)
+                m.loading_range = (th_lo * nm_nat, th_hi * nm_nat)
+            else:
+                m = get_isotherm_model(model, parameters=lp, pressure_range=(x_lo / K_nat, x_hi / K_nat),
+                                       loading_range=(th_lo * nm_nat, th_hi * nm_nat))
+            template = template or m
             iso = ModelIsotherm(model=m, **iso_kwargs(desc, T))
             rec["l_lo"], rec["l_hi"] = th_lo * nm_nat, th_hi * nm_nat
         else:
